@@ -10,20 +10,26 @@
 (* runs without registry failures) are evaluated for those calls.           *)
 EXTENDS Store, Json, TLCExt
 
-VARIABLES l, full
-mvars == <<vars, l, full>>
+VARIABLES l, full, held
+mvars == <<vars, l, full, held>>
 
 TraceLog == ndJsonDeserialize("trace.ndjson")
 Ev == TraceLog[l]
 Has(f) == f \in DOMAIN Ev
 SeqRange(s) == {s[i] : i \in 1..Len(s)}
 
-MonInit == Init /\ l = 1 /\ full = TRUE
+\* history bookkeeping reconstructed from the calls alone: uses of (ref, toc) that have not been released yet
+HeldInit == [r \in Refs |-> [t \in T |-> 0]]
+MonInit == Init /\ l = 1 /\ full = TRUE /\ held = HeldInit
 
 MonNext ==
     /\ l <= Len(TraceLog)
     /\ l' = l + 1
     /\ full' = Has("layer")
+    /\ held' = IF Ev.ev = "Reset" THEN HeldInit
+               ELSE IF Ev.ev = "Use" THEN [held EXCEPT ![Ev.r][Ev.t] = @ + 1]
+               ELSE IF Ev.ev = "Release" THEN [held EXCEPT ![Ev.r][Ev.t] = IF @ > 0 THEN @ - 1 ELSE 0]
+               ELSE held
     /\ last' = IF Ev.ev = "Reset" THEN [act |-> "Init"]
                ELSE IF Ev.ev = "Lookup"
                THEN [act |-> "Lookup", r |-> Ev.r, t |-> Ev.t, kind |-> Ev.kind, fail |-> SeqRange(Ev.fail), res |-> Ev.res]
@@ -47,11 +53,19 @@ MonHandlesMatchLayers == full => HandlesMatchLayers
 \* a layer under a digest that no layer of the image has, or holding another TOC than its key
 MonOnlyOwnCached == full => OnlyOwnCached
 
+\* the use count is the number of uses not yet released (no entry when there is none)
+MonCountMatchesUses ==
+    full => \A r \in Refs : \A t \in T : IF held[r][t] = 0 THEN cnt[r][t] = NoCnt ELSE cnt[r][t] = held[r][t]
+
 \* step formulas that read the state on both sides: only between two recorded states
 Both == full /\ full'
 MonNeverDoneWhileUsed ==
     [][Both => \A r \in Refs : \A t \in Own(r) :
           (layer[r][t] /\ cnt'[r][t] # NoCnt /\ cnt'[r][t] >= 1) => (layer'[r][t] /\ out'[r][t] >= out[r][t])]_mvars
+\* the same with the uses counted from the calls instead of the implementation's counter
+MonUsedLayerStays ==
+    [][Both => \A r \in Refs : \A t \in Own(r) :
+          (layer[r][t] /\ held'[r][t] >= 1) => (layer'[r][t] /\ out'[r][t] >= out[r][t])]_mvars
 MonSuccessMeansCached ==
     [][Both => \A r \in Refs : (IsLayerLookup(last') /\ last'.r = r /\ last'.res = "ok" /\ IsOwn(r, last'.t))
            => (layer'[r][last'.t] /\ out'[r][last'.t] >= 1)]_mvars
